@@ -40,7 +40,7 @@ func init() {
 			for i := 0; i < n; i++ {
 				mode := pick(r, "custom", "custom", "constant", "staged", "ramp", "gaussian")
 				ivUS := pick(r, 1000, 2000, 5000, 10000, 20000, 50000, 100000)
-				if i%16 == 15 {
+				if i%8 == 7 {
 					ivUS = pick(r, 250000, 1000000)
 				}
 				c := pick(r, 1, 4, 64, 512, 2000, 5000)
@@ -76,8 +76,17 @@ func init() {
 						p.Interval = 1000
 					}
 				}
+				if mode != "custom" && ivUS >= 250000 && r.IntN(2) == 0 {
+					// the real sub-tick distribution: evaluations every 100 ms
+					p.Spec.Distribution = pick(r, "regular", "random")
+					p.Interval = 100000
+					p.StopAt = 8 + r.IntN(8)
+					if p.StallAt >= p.StopAt {
+						p.StallAt = -1
+					}
+				}
 				p.Spec.IgnoreDropped = true
-				p.Desc = fmt.Sprintf("mode=%s interval=%dus c=%d stopAt=%d stallAt=%d", mode, p.Interval, c, p.StopAt, p.StallAt)
+				p.Desc = fmt.Sprintf("mode=%s interval=%dus dist=%s c=%d stopAt=%d stallAt=%d", mode, p.Interval, p.Spec.Distribution, c, p.StopAt, p.StallAt)
 				cse := core.MkCase("C09", "cadence", i, seed, p)
 				cse.Race = i%3 == 0
 				cse.Procs = pick(r, 1, 2, 16)
